@@ -174,6 +174,8 @@ def _report(ctx, failures, cases_by_id):
             raise vlib.Infra("the specification's own table / the harness input is ill-formed (%s/%s, case %s): %s"
                              % (ev, cl, g["cid"], _short(same[0][2])))
         sig = {"event": ev, "clause": cl, "fmt": fmt}
+        if g["vars"]:
+            sig["variants"] = ",".join(sorted(g["vars"]))     # which spec-encoded variants fail (dec events)
         what = ("cmap: %s [event %s, clause %s, format %s%s; %d failing events in this run]. Smallest witness: %s"
                 % (_EXPLAIN.get((ev, cl), "clause rejected by CmapTrace.tla"), ev, cl, fmt,
                    (", spec-encoded variants " + ",".join(sorted(g["vars"]))) if g["vars"] else "", g["count"],
@@ -217,16 +219,16 @@ def run(ctx):
     m12 = _cfg("CmapMCMaps12.cfg")
     if thorough:
         m12 = m12.replace("N12 = 7", "N12 = 8").replace("G12 = 2", "G12 = 3").replace("MaxCode = 3", "MaxCode = 4")
-    mcw = max(2, W // 3)
+    mcw = max(2, W // 2) if thorough else max(2, W // 3)
     mc = [
         bg("CmapMC maps 0..%d -> 0..%d: Dec4/Dec6 invert the encoders, Agree4/Pairs4 = pointwise Dec4" % (maxcode, maxcode),
-           "CmapMC", cfg="MCm.cfg", workers=mcw, timeout=1500,
+           "CmapMC", cfg="MCm.cfg", workers=mcw, timeout=3000,
            files={"MCm.cfg": _cfg("CmapMCMaps.cfg").replace("MaxCode = 4", "MaxCode = %d" % maxcode)
-                  .replace("NegAll = FALSE", "NegAll = %s" % ("TRUE" if thorough else "FALSE"))}),
+                  }),
         bg("CmapMC format 12: every map over %d codes" % (8 if thorough else 7), "CmapMC", cfg="MC12.cfg",
-           workers=mcw, timeout=1500, files={"MC12.cfg": m12}),
+           workers=mcw, timeout=3000, files={"MC12.cfg": m12}),
         bg("CmapMC every format-4 body (segCount <= 2, glyph array <= %d, all word values)" % ga, "CmapMC",
-           cfg="MCb.cfg", workers=mcw, timeout=1500,
+           cfg="MCb.cfg", workers=mcw, timeout=3000,
            files={"MCb.cfg": _cfg("CmapMCBodies.cfg").replace("GA = 1", "GA = %d" % ga)}),
         bg("CmapMC format 0 at the real word size", "CmapMC", cfg="CmapMCBytes.cfg", workers=1, timeout=600),
     ]
@@ -246,8 +248,8 @@ def run(ctx):
     if thorough:
         xcfg = _cfg("CmapGen.cfg").replace("MaxBlocks = 4", "MaxBlocks = 2")
         xcfg = xcfg.replace("Gaps = {0, 1, 2, 3, 4, 5, 6, 200}", "Gaps = {0, 1, 5}")
-        xcfg = xcfg.replace("Lens = {1, 2, 3, 4, 5, 8}", "Lens = {1, 3, 5}")
-        sgens.append(bg("CmapGen exhaustive (<= 2 blocks, gaps {0,1,5}, lens {1,3,5})", "CmapGen", cfg="CmapGenX.cfg",
+        xcfg = xcfg.replace("Lens = {1, 2, 3, 4, 5, 8}", "Lens = {1, 3, 5}").replace("FewAnchors = FALSE", "FewAnchors = TRUE")
+        sgens.append(bg("CmapGen exhaustive (<= 2 blocks, gaps {0,1,5}, lens {1,3,5}, anchors 0, 0xFFFF, BMP edge)", "CmapGen", cfg="CmapGenX.cfg",
                         files={"CmapGenX.cfg": xcfg}, workers=max(2, W // 2), timeout=1500))
 
     binp = ctx.build("c09")
@@ -258,6 +260,8 @@ def run(ctx):
 
     def number(cases, kind, full_every, ximg_every):
         for c in cases:
+            if thorough and kind == "struct" and nid[0] % 4 != 0 and not c.get("mac"):
+                c["t6"] = []         # the format-6 decode is exercised on a quarter of the structures
             c["id"] = nid[0]
             c["kind"] = kind
             c["full"] = (nid[0] % full_every == 0)
@@ -329,7 +333,7 @@ def run(ctx):
     step = 20000
     for a in range(0, len(scases), step):
         part = scases[a:a + step]
-        files = drive("structs", part, "st%d" % (a // step), 1200)
+        files = drive("structs", part, "st%d" % (a // step), ctx.pick(1200, 3000))
         _validate_files(ctx, files, failures)
         ctx.cov["traces_validated_against_impl"] += len(part)
         forget(part)
@@ -372,6 +376,8 @@ def replay(ctx, obj):
         if cl == "specwf":
             raise vlib.Infra("ill-formed specification table in replay")
         s = {"event": ev, "clause": cl, "fmt": _efmt(e)}
+        if ev == "dec" and e.get("var"):
+            s["variants"] = e["var"]
         if sig and (s["event"], s["clause"], s["fmt"]) != (sig.get("event"), sig.get("clause"), sig.get("fmt")):
             continue
         ctx.violation("cmap: %s [event %s, clause %s]: %s" % (
